@@ -166,3 +166,23 @@ func vfRunVsPeer(underTestIsClient bool, ucfg, pcfg *Config, peer func(pc *Conn)
 	r.UState = u.ConnectionState()
 	return r
 }
+
+// vfPeerPending reports whether the endpoint under test has sent something the peer has not read
+// yet. Virtual time: a read with a 125 ms deadline either gets the datagram (the endpoint under test
+// answers without letting virtual time pass) or times out.
+func vfPeerPending(pc *Conn) bool {
+	if len(pc.rawInputBuf) >= recordHeaderLen || pc.handBuf.Len() > 0 {
+		return true
+	}
+	pc.pconn.SetReadDeadline(time.Now().Add(125 * time.Millisecond))
+	err := pc.readDatagram()
+	pc.pconn.SetReadDeadline(time.Time{})
+	return err == nil
+}
+
+// vfPeerTuneConfig: the endpoint under test must not retransmit while the peer polls for output
+// in 125 ms steps of virtual time.
+func vfPeerTuneConfig(cfg *Config) {
+	cfg.InitialRetransmitTimeout = 16 * time.Second
+	cfg.MaxRetransmitTimeout = 64 * time.Second
+}
